@@ -283,7 +283,8 @@ _reg("C13", c13.run, translator=("T1", "T2", "T11"), module="NirVerif.Properties
      level_note="Lean kernel; hand-written models of to_dict/from_dict/write/read and of the h5py contract (create_dataset conversions, item[()], link names, iteration order), validated against the real library and real files on every run.")
 _reg("C14", c14.run, translator=("T1", "T4", "T5"), module="NirVerif.Properties.C14File",
      theorems=["NirVerif.C14.commute", "NirVerif.C14.commute_keyed", "NirVerif.C14.inferred_is_stable",
-               "NirVerif.C14.inferableK_perm", "NirVerif.C14.dict_roundtrip_commutes", "NirVerif.C14.file_roundtrip_commutes"],
+               "NirVerif.C14.inferableK_perm", "NirVerif.C14.dict_roundtrip_commutes", "NirVerif.C14.file_roundtrip_commutes",
+               "NirVerif.C14.check_file_roundtrip"],
      rule="Consistent graphs (C08 domain, plus grouped convolutions for the commutation clause) under 8 (thorough 32) "
           "operation histories of length 1-4 over {infer_types, write+read, to_dict+from_dict}: after every round trip of an "
           "inferred graph the carried annotations must be regained, and one more infer_types must give the ground-truth types.",
